@@ -12,7 +12,10 @@ package event
 //                      takes the value from channel k, or Unsubscribe of
 //                      subscriber k (the real remove() runs and hands its
 //                      channel over removeSub), or - without waking Send - a
-//                      new Subscribe / an Unsubscribe that is served from inbox
+//                      new Subscribe / an Unsubscribe that is served from inbox,
+//                      or "another goroutine calls Send(v2) now and runs until it
+//                      blocks" (vs.UntilBlocked; on the unchanged code it parks at
+//                      <-f.sendLock without having touched anything)
 //
 // Under the engine (reflect.Value).TrySend and reflect.Select are redirected
 // (suite overrides) to c19TrySend / c19Select below, which consume the script.
@@ -63,6 +66,13 @@ type c19World struct {
 	lateSub   Subscription
 	lateUnsub bool
 	lateDeliv int
+	lateWakes int // Select waits ended by the late subscriber's Unsubscribe (none on the unchanged code)
+
+	// a second sender that arrives while Send is running (at most once)
+	queuedOn bool
+	queued   bool
+	msg2     c19Msg
+	value2   interface{}
 
 	rendezvous chan interface{} // engine: stands for removeSub while Send waits in Select
 
@@ -70,6 +80,10 @@ type c19World struct {
 	fill   []int // filler values currently buffered in channel k
 	pulled []int // real values the controller already took out of channel k
 	snap   []int // real values channel k had received when its Unsubscribe returned
+	// the feed's lists at the instant Send returned (a queued sender runs on afterwards)
+	snapTaken bool
+	snapCases caseList
+	snapInbox caseList
 }
 
 var c19w *c19World
@@ -180,7 +194,7 @@ func c19TrySend(v reflect.Value, x reflect.Value) bool {
 // c19Select replaces reflect.Select under the engine.
 func c19Select(cases []reflect.SelectCase) (int, reflect.Value, bool) {
 	w := c19w
-	vs.Assert(w.round < w.maxRounds, "unwinding assertion: Send terminates within the bound on Select rounds")
+	vs.Assert(w.round < w.maxRounds+w.lateWakes, "unwinding assertion: Send terminates within the bound on Select rounds")
 	vs.Assert(len(cases) >= 2, "Select is entered only while a send case is active")
 	vs.Assert(cases[0].Dir == reflect.SelectRecv, "case 0 is a receive")
 	vs.Assert(cases[0].Chan.Interface() == interface{}(w.f.removeSub), "case 0 receives from removeSub")
@@ -190,10 +204,7 @@ func c19Select(cases []reflect.SelectCase) (int, reflect.Value, bool) {
 		vs.Assert(cases[j].Send.IsValid(), "active send case carries a value")
 		vs.Assert(cases[j].Send.Interface() == w.value, "active send case carries the value given to Send")
 	}
-	nev := 1 + 2*w.n
-	if w.lateOn {
-		nev += 2
-	}
+	nev, evLateSub, evLateUnsub, evQueued := w.events()
 	for {
 		ev := vs.Choice("ev", nev)
 		switch {
@@ -226,19 +237,48 @@ func c19Select(cases []reflect.SelectCase) (int, reflect.Value, bool) {
 				return 0, reflect.ValueOf(got), true
 			}
 			// served from the inbox: Send is not woken
-		case ev == 2*w.n+1:
+		case ev == evLateSub:
 			vs.Assume(w.lateSub == nil)
 			w.lateSub = w.f.Subscribe(w.lateCh)
+		case ev == evQueued:
+			// another goroutine calls Send(v2) now and runs until it blocks
+			vs.Assume(!w.queued)
+			w.queued = true
+			blocked := vs.UntilBlocked(func() { w.f.Send(w.value2) })
+			vs.Assert(blocked, "a second Send waits until the running Send has returned")
 		default:
+			vs.Assume(ev == evLateUnsub)
 			vs.Assume(w.lateSub != nil && !w.lateUnsub)
 			orig := w.f.removeSub
 			w.f.removeSub = w.rendezvous
 			w.lateSub.Unsubscribe()
 			w.f.removeSub = orig
 			w.lateUnsub = true
-			vs.Assert(len(w.rendezvous) == 0, "Unsubscribe of a subscriber that is still in the inbox does not interrupt Send")
+			if len(w.rendezvous) == 1 {
+				// not in the inbox any more (somebody merged it): handed over like any other
+				got := <-w.rendezvous
+				w.lateWakes++ // one more wait than the 2n-1 the entry subscribers account for
+				w.nextRound()
+				return 0, reflect.ValueOf(got), true
+			}
 		}
 	}
+}
+
+// events numbers the script's event kinds: 0 terminator, 1..n receiver on
+// channel k, n+1..2n Unsubscribe of k, then (if enabled) late Subscribe, late
+// Unsubscribe, queued Send.
+func (w *c19World) events() (nev, lateSub, lateUnsub, queued int) {
+	nev, lateSub, lateUnsub, queued = 1+2*w.n, -1, -1, -1
+	if w.lateOn {
+		lateSub, lateUnsub = nev, nev+1
+		nev += 2
+	}
+	if w.queuedOn {
+		queued = nev
+		nev++
+	}
+	return
 }
 
 func (w *c19World) nextRound() {
@@ -262,6 +302,9 @@ func (w *c19World) take(k int) bool {
 		return false // would block: the run has left the script
 	}
 	m := <-ch
+	if m.Real && w.queued && m == w.msg2 {
+		return true // the queued sender's value (it runs on after the Send under test returned)
+	}
 	if k == w.n {
 		if m.Real {
 			w.lateDeliv++
@@ -296,7 +339,7 @@ func (w *c19World) native() (nsent int, finished bool) {
 	defer dog.Stop()
 
 	// the script
-	passes := w.maxRounds + 1
+	passes := w.maxRounds + 2
 	ready := make([][]int, w.n)
 	for k := 0; k < w.n; k++ {
 		ready[k] = make([]int, passes)
@@ -313,10 +356,7 @@ func (w *c19World) native() (nsent int, finished bool) {
 			}
 		}
 	}
-	nev := 1 + 2*w.n
-	if w.lateOn {
-		nev += 2
-	}
+	nev, evLateSub, evLateUnsub, evQueued := w.events()
 	evs := make([]int, 4*passes+8)
 	for i := range evs {
 		evs[i] = vs.Choice("ev", nev)
@@ -350,8 +390,13 @@ func (w *c19World) native() (nsent int, finished bool) {
 			done = true
 		}()
 		nsent = w.f.Send(w.value)
+		// no yield since Send handed the token back: the lists as Send left them
+		w.snapCases = append(caseList(nil), w.f.sendCases...)
+		w.snapInbox = append(caseList(nil), w.f.inbox...)
+		w.snapTaken = true
 	}()
 	c19Quiesce()
+	queuedOK := true
 	for i := 0; !done && i < len(evs); i++ {
 		ev := evs[i]
 		woke := false
@@ -374,12 +419,19 @@ func (w *c19World) native() (nsent int, finished bool) {
 			w.unsub[k] = true
 			w.snap[k] = w.realCount(k)
 			woke = true
-		case ev == 2*w.n+1:
+		case ev == evLateSub:
 			if w.lateSub == nil {
 				w.lateSub = w.f.Subscribe(w.lateCh)
 			}
+		case ev == evQueued:
+			if !w.queued {
+				w.queued = true
+				queuedOK = vs.UntilBlocked(func() { w.f.Send(w.value2) })
+			}
 		default:
-			if w.lateSub != nil && !w.lateUnsub {
+			if ev == evLateUnsub && w.lateSub != nil && !w.lateUnsub {
+				// served from the inbox unless somebody merged it: then it is handed to the waiting Send
+				woke = w.f.inbox.find(interface{}(w.lateCh)) < 0
 				w.lateSub.Unsubscribe()
 				w.lateUnsub = true
 			}
@@ -395,6 +447,7 @@ func (w *c19World) native() (nsent int, finished bool) {
 	if sendPanic != nil {
 		panic(sendPanic)
 	}
+	vs.Assert(queuedOK, "a second Send waits until the running Send has returned")
 	if !done {
 		return 0, false
 	}
@@ -415,41 +468,60 @@ func (w *c19World) native() (nsent int, finished bool) {
 
 // ---------------------------------------------------------------------------
 
-// c19CheckFeed asserts the feed's lists and token: sendCases = removeSub case +
-// exactly the channels of `want` (each once, Send cleared), inbox = wantInbox.
-func (w *c19World) checkFeed(inCases []bool, lateInInbox bool) {
+// checkFeed asserts the feed's lists and token as Send left them: sendCases =
+// removeSub case + exactly the live entry subscribers (each once); a subscriber
+// that arrived during Send and is still subscribed sits exactly once in inbox or
+// sendCases (which of the two is the implementation's business); nothing else in
+// either list; every Send field cleared.
+func (w *c19World) checkFeed(inCases []bool, lateLive bool) {
 	f := w.f
-	vs.Assert(len(f.sendLock) == 1, "the send token is back in sendLock")
+	cases, inbox := f.sendCases, f.inbox
+	if w.snapTaken {
+		cases, inbox = w.snapCases, w.snapInbox
+	}
+	if vs.Symbolic() || !w.queued {
+		// natively a queued sender takes the token the moment it is returned
+		vs.Assert(len(f.sendLock) == 1, "the send token is back in sendLock")
+	}
 	vs.Assert(len(f.removeSub) == 0, "nothing is left in removeSub")
-	vs.Assert(len(f.sendCases) >= 1, "sendCases keeps the removeSub case")
-	vs.Assert(f.sendCases[0].Dir == reflect.SelectRecv, "sendCases[0] is a receive")
-	vs.Assert(f.sendCases[0].Chan.Interface() == interface{}(f.removeSub), "sendCases[0] receives from removeSub")
-	want := 0
-	for k := 0; k < w.n; k++ {
+	vs.Assert(len(cases) >= 1, "sendCases keeps the removeSub case")
+	vs.Assert(cases[0].Dir == reflect.SelectRecv, "sendCases[0] is a receive")
+	vs.Assert(cases[0].Chan.Interface() == interface{}(f.removeSub), "sendCases[0] receives from removeSub")
+	count := func(l caseList, from int, c interface{}) int {
 		cnt := 0
-		for i := firstSubSendCase; i < len(f.sendCases); i++ {
-			if f.sendCases[i].Chan.Interface() == interface{}(w.ch[k]) {
+		for i := from; i < len(l); i++ {
+			if l[i].Chan.Interface() == c {
 				cnt++
 			}
 		}
+		return cnt
+	}
+	want := 0
+	for k := 0; k < w.n; k++ {
+		inC, inI := count(cases, firstSubSendCase, interface{}(w.ch[k])), count(inbox, 0, interface{}(w.ch[k]))
+		vs.Assert(inI == 0, "a subscriber known to Send is not in the inbox afterwards")
 		if inCases[k] {
 			want++
-			vs.Assert(cnt == 1, "a live subscriber is in sendCases exactly once")
+			vs.Assert(inC == 1, "a live subscriber is in sendCases exactly once")
 		} else {
-			vs.Assert(cnt == 0, "a removed subscriber is not in sendCases")
+			vs.Assert(inC == 0, "a removed subscriber is not in sendCases")
 		}
 	}
-	vs.Assert(len(f.sendCases) == 1+want, "sendCases holds nothing but the live subscribers")
-	for i := firstSubSendCase; i < len(f.sendCases); i++ {
-		vs.Assert(f.sendCases[i].Dir == reflect.SelectSend, "subscriber cases are send cases")
-		vs.Assert(!f.sendCases[i].Send.IsValid(), "the sent value is forgotten (Send field cleared)")
-	}
-	if lateInInbox {
-		vs.Assert(len(f.inbox) == 1, "inbox holds exactly the subscriber that arrived during Send")
-		vs.Assert(f.inbox[0].Chan.Interface() == interface{}(w.lateCh), "inbox holds the subscriber that arrived during Send")
-		vs.Assert(f.inbox[0].Dir == reflect.SelectSend, "inbox case is a send case")
+	lateCnt := count(cases, firstSubSendCase, interface{}(w.lateCh)) + count(inbox, 0, interface{}(w.lateCh))
+	if lateLive {
+		want++
+		vs.Assert(lateCnt == 1, "a subscriber that arrived during Send is registered exactly once")
 	} else {
-		vs.Assert(len(f.inbox) == 0, "inbox is empty after Send")
+		vs.Assert(lateCnt == 0, "a subscriber that never arrived or left again is not registered")
+	}
+	vs.Assert(len(cases)-1+len(inbox) == want, "sendCases and inbox hold nothing but the live subscribers")
+	for i := firstSubSendCase; i < len(cases); i++ {
+		vs.Assert(cases[i].Dir == reflect.SelectSend, "subscriber cases are send cases")
+		vs.Assert(!cases[i].Send.IsValid(), "the sent value is forgotten (Send field cleared)")
+	}
+	for i := 0; i < len(inbox); i++ {
+		vs.Assert(inbox[i].Dir == reflect.SelectSend, "inbox cases are send cases")
+		vs.Assert(!inbox[i].Send.IsValid(), "inbox cases carry no value")
 	}
 }
 
@@ -467,19 +539,40 @@ func VerifC19_Send() {
 // than VerifC19_Send at an affordable number of scripts).
 func VerifC19_SendWide() {
 	n := vs.Param("subs")
-	merged := n * vs.Choice("merged", 2)
+	merged := 0 // all in the inbox: Send's own merge reallocates sendCases
+	if vs.Param("both") != 0 {
+		merged = n * vs.Choice("merged", 2)
+	}
 	c19SendHarness(n, merged, 0)
+}
+
+// VerifC19_SendQueued: the same check with the late-subscriber and queued-Send
+// events enabled, subscribers all in sendCases or all in the inbox (for these
+// placements the engine's and the runtime's append growth agree, so that
+// counterexamples that hinge on a reallocation of sendCases replay natively).
+func VerifC19_SendQueued() {
+	n := vs.Param("subs")
+	if vs.Param("both") != 0 {
+		c19SendHarness(n, n*vs.Choice("merged", 2), vs.Choice("slack", 2))
+		return
+	}
+	// one placement: all in sendCases, no spare capacity (the queued sender's
+	// merge, if it happens, must reallocate)
+	c19SendHarness(n, n, 0)
 }
 
 func c19SendHarness(n, merged, slack int) {
 	w := c19NewWorld(n, merged, slack)
 	w.lateOn = vs.Param("late") != 0
+	w.queuedOn = vs.Param("queued") != 0
 	w.maxRounds = 0
 	if n > 0 {
 		w.maxRounds = 2*n - 1
 	}
 	w.msg = c19Msg{Real: true, V: vs.Int("value")}
 	w.value = w.msg
+	w.msg2 = c19Msg{Real: true, V: w.msg.V + 1}
+	w.value2 = w.msg2
 
 	var nsent int
 	if vs.Symbolic() {
